@@ -285,7 +285,11 @@ func zz3Sequence(viaGitInterface bool) {
 		zz3Must(NewReferenceEntry("refs/heads/main", w.commits[0]).CommitWithoutNumber(w.st))
 		zz3Must(NewReferenceEntry("refs/heads/main", w.commits[1]).Commit(w.st, false))
 	}
-	n := verif.Concrete(verif.IntRange("nops", 1, verif.Bound("ops", 2, 3)))
+	maxOps := verif.Bound("ops", 2, 3)
+	if viaGitInterface {
+		maxOps = 2 // the git-command variant repeats the 2-operation space in both tiers
+	}
+	n := verif.Concrete(verif.IntRange("nops", 1, maxOps))
 	for k := 0; k < n; k++ {
 		zz3Op(w, k, legacy)
 	}
